@@ -118,7 +118,7 @@ impl<F: CoordFloat> InterpolatableLineString<F> for LineString<F> {
             // clamped to the ends: a non-positive distance gives the FIRST vertex itself, a distance past the end the LAST
             distance.val() <= 0 && self.0@.len() > 0 ==> r == Some(Point(self.0@[0])),
             distance.val() > 0 && walk(self.0@, 0, distance.val()) is None && self.0@.len() > 0 ==> r == Some(Point(self.0@.last())),
-//@closure * `|coord| Point(*coord)` | coord: &Coord<F> | pp: Point<F>
+//@closure * `|coord|` | coord: &Coord<F> | pp: Point<F>
             ensures pp == Point(*coord)
 //@entry
         proof { F::ax_obeys(); F::ax_order(); F::ax_ring(); }
@@ -142,7 +142,7 @@ impl<F: CoordFloat> InterpolatableLineString<F> for LineString<F> {
             distance.val() > 0 && walk(rev_seq(self.0@), 0, distance.val()) is Some ==> r == walk(rev_seq(self.0@), 0, distance.val()),
             distance.val() <= 0 && self.0@.len() > 0 ==> r == Some(Point(self.0@.last())),
             distance.val() > 0 && walk(rev_seq(self.0@), 0, distance.val()) is None && self.0@.len() > 0 ==> r == Some(Point(self.0@[0])),
-//@closure * `|coord| Point(*coord)` | coord: &Coord<F> | pp: Point<F>
+//@closure * `|coord|` | coord: &Coord<F> | pp: Point<F>
             ensures pp == Point(*coord)
 //@entry
         proof { F::ax_obeys(); F::ax_order(); F::ax_ring(); }
